@@ -22,7 +22,8 @@
 //! For every pair the three builders x max_diff_block_size values are run; each produced patch is taken apart by
 //! an independent reader (own header split, own inflate - not the library's parser) and applied with
 //! apply_patch_memory, ZbsdiffPatcher (several buffer sizes x initial positions of the old-file reader: start, 1,
-//! middle, EOF - "s1024@mid" etc.) and ZbsDiff::parse(..).apply(..).  Configurations
+//! middle, EOF - "s1024@mid" etc.; and once through a reader whose read() returns short counts, "s1024~short") and
+//! ZbsDiff::parse(..).apply(..).  Configurations
 //! that behaved identically (same patch blocks, same outputs) are logged as one record.
 //!
 //! The driver only executes and records; verdicts are computed by TLC (spec/trace/T_Bsdiff.tla).
@@ -308,8 +309,42 @@ fn reader_positions(len: usize, first: bool) -> Vec<(&'static str, usize)> {
     if first { vec![("", 0), ("@1", 1.min(len)), ("@mid", len / 2), ("@end", len)] } else { vec![("", 0), ("@end", len)] }
 }
 
+/// An old-file source whose `read` returns short counts (1..=3 bytes per call, seeded; never 0 before EOF), as a
+/// `BufReader` at a buffer boundary, `Take`, `Chain` or a network file system may.  `Read::read` is allowed to do
+/// that, so the expected output does not depend on it.
+struct ShortReader<'a> {
+    inner: Cursor<&'a [u8]>,
+    state: u64,
+}
+impl std::io::Read for ShortReader<'_> {
+    fn read(&mut self, buf: &mut [u8]) -> std::io::Result<usize> {
+        if buf.is_empty() {
+            return Ok(0);
+        }
+        self.state = self.state.wrapping_mul(6_364_136_223_846_793_005).wrapping_add(1_442_695_040_888_963_407);
+        let k = 1 + ((self.state >> 33) % 3) as usize;
+        let n = k.min(buf.len());
+        self.inner.read(&mut buf[..n])
+    }
+}
+impl Seek for ShortReader<'_> {
+    fn seek(&mut self, pos: SeekFrom) -> std::io::Result<u64> {
+        self.inner.seek(pos)
+    }
+}
+
 fn apply_all(old: &[u8], patch: &[u8], bufs: &[usize]) -> Vec<(String, Outcome)> {
     let mut v = vec![("mem".to_string(), outcome(guarded(|| apply_patch_memory(old, patch))))];
+    if let Some(&b) = bufs.first() {
+        v.push((
+            format!("s{b}~short"),
+            outcome(guarded(|| {
+                let h = ZbsdiffHeader::parse_from_patch(patch)?;
+                let rd = ShortReader { inner: Cursor::new(old), state: (old.len() as u64) << 32 ^ patch.len() as u64 };
+                ZbsdiffPatcher::new(rd, h.output_size as usize).with_buffer_size(b).apply_patch_from_data(patch)
+            })),
+        ));
+    }
     for (i, &b) in bufs.iter().enumerate() {
         for (tag, pos) in reader_positions(old.len(), i == 0) {
             v.push((
